@@ -44,7 +44,9 @@ def gen_history(rng) -> dict:
         elif r < 0.72:
             events.append({"ev": "bounds", "sb": _gen_sb(rng, anchors)})
         elif r < 0.87:
-            events.append({"ev": "result", "kind": rng.choice(["success", "partial", "partial", "error"])})
+            # `which`: the result answers the k-th latest request (stale results for superseded requests happen)
+            events.append({"ev": "result", "kind": rng.choice(["success", "partial", "partial", "error"]),
+                           "which": rng.choice([0, 0, 0, 1, 2, 4])})
         else:
             d = rng.choice([1, 1, 2, 3, 30, 61, 62])
             for _k in range(d):
@@ -111,7 +113,7 @@ async def _drive(case: dict) -> list[dict]:
                 await subs.new_sender().send(rr)
                 await _settle()
         psend, bsend, rsend = proposals.new_sender(), bounds_ch.new_sender(), results.new_sender()
-        last_request = None
+        all_requests: list = []
         loop = asyncio.get_running_loop()
         for ev in case["events"]:
             kind = ev["ev"]
@@ -121,7 +123,9 @@ async def _drive(case: dict) -> list[dict]:
             elif kind == "bounds":
                 await bsend.send(g.mk_sb(ev["sb"]))
             elif kind == "result":
-                req = last_request or pd.Request(power=g.to_power("0"), component_ids=cids, adjust_power=True)
+                k = min(ev.get("which", 0), len(all_requests) - 1)
+                req = (all_requests[-1 - k] if all_requests
+                       else pd.Request(power=g.to_power("0"), component_ids=cids, adjust_power=True))
                 if ev["kind"] == "success":
                     res = pd.Success(request=req, succeeded_power=req.power, succeeded_components=set(cids),
                                      excess_power=g.to_power("0"))
@@ -148,8 +152,7 @@ async def _drive(case: dict) -> list[dict]:
                 if r is None:
                     break
                 reqs.append(r)
-            if reqs:
-                last_request = reqs[-1]
+            all_requests.extend(reqs)
             reg_rep, op_rep, reg_t, op_t, seen = [], [], None, None, False
             for pr in case["prios"]:
                 rx = rep_rx[pr]
